@@ -33,9 +33,7 @@ NO_EVENT_OK = {
 NO_EVENT_SITES = {
     ("RunTaskHandler", "SUSPENDED"): "SUSPENDED parking is not a final status",
     ("RunTaskHandler", "RUNNING"): "resume after a buffered signal",
-    ("StartStageHandler", "TERMINAL"): "wait-budget / planning-error TERMINAL mark: the CompleteStage it pushes records stage.failed",
     ("StartStageHandler", "NOT_STARTED"): "claim revert (not durable)",
-    ("ContinueParentStageHandler", "TERMINAL"): "synthetic-failure propagation: the CompleteStage it pushes records stage.failed",
     ("StartWorkflowHandler", "BUFFERED"): "explicit wait for a concurrency slot",
     ("StartWorkflowHandler", "TERMINAL"): "workflow without initial stages (construction error)",
     ("StartTaskHandler", "RUNNING", "CompleteTask"): "disabled SkippableTask: started only to be completed as SKIPPED; CompleteTask's task.completed event carries the final status",
@@ -108,6 +106,7 @@ def run(ctx, rep) -> None:
     rep.rule("C12.R1", "per recorder call site: status derived by the replay's apply case from the event = status of the entity when the event is recorded; every regular durable status change of a stage/task/workflow has such an event on its path")
     rep.rule("C12.R2", "every EventType emitted by a stage/task/workflow recorder has an apply case (status-neutral ones listed)")
     rep.rule("C12.R3", "as_of: events filtered by sequence <= as_of, snapshot used only if snapshot.sequence <= as_of; events read with sequence > start ORDER BY sequence ASC; start = snapshot.sequence")
+    rep.rule("C12.R5", "log order = commit order: no event is recorded outside a transaction AFTER a commit of the same path that pushed a message (another worker handling that message can record the entity's later events first, and the replay then ends on the earlier status)")
     rep.rule("C12.R4", "keys emitted by WorkflowState.to_dict = keys restored by _load_state_from_snapshot")
     rep.undecided += ["equality of data payloads (context, outputs)", "ordering effects of concurrent recorders"]
     rt = recorder_table(prog)
@@ -212,6 +211,29 @@ def run(ctx, rep) -> None:
                 rep.fail("C12.R1", label, "the status change becomes durable but no event for that entity is recorded on the path: a replay keeps the previous status", w.site[0], w.site[1],
                          disc=f"noevent:{w.get('okind')}:{tag}:{str(w.get('ctx')).split('>')[-1]}")
     rep.floor("durable status writes examined", n_w, 25)
+    # R5: an event recorded after (outside) the commit that released the follow-up message can be overtaken
+    n_o = 0
+    for pi in infos:
+        if not pi.seq:
+            continue
+        for i, e in enumerate(pi.trace):
+            if e.kind != "event":
+                continue
+            n_o += 1
+            if e.get("in_txn"):
+                continue
+            released = [c for c in pi.seq if c.index < i and any(x.kind == "push" for x in c.effects)]
+            key = ("order", pi.handler, e.get("name"), bool(released), e.site)
+            if key in seen:
+                continue
+            seen.add(key)
+            if released:
+                pushed = sorted({str(x.get("cls")) for c in released for x in c.effects if x.kind == "push"})
+                rep.fail("C12.R5", f"{pi.handler}: {e.get('name')} after the releasing commit", f"recorded outside the transaction, after the commit that pushed {pushed}: a second worker can handle those messages and record the entity's "
+                         "completion before this event is appended - the log then ends with the earlier status (store SUCCEEDED, replay RUNNING)", e.site[0], e.site[1], disc=f"order:{e.get('name')}")
+            else:
+                rep.ok("C12.R5", f"{pi.handler}: {e.get('name')} outside a transaction", "no message was released before it on this path", e.site[0], e.site[1])
+    rep.floor("recorder call events examined for log order", n_o, 40)
 
     # ---- R3 ----------------------------------------------------------------------------------------
     rbf = prog.func("stabilize.events.replay", "EventReplayer.rebuild_workflow_state")
